@@ -2,7 +2,7 @@
 //
 // Op language (stateful; one chain per `reset`):
 //
-//	reset <base> [arb]       fresh State (mainnet parameters); block heights are base+1, base+2, …; with `arb` the real
+//	reset <base> [arb|arb2]       fresh State (mainnet parameters); block heights are base+1, base+2, …; with `arb` the real
 //	                         Arbiters is driven and `rb` goes through dpos CheckPoint.OnRollbackTo (the node's entry point)
 //	blk <h> <sponsor|-> <tx> <tx> …   ProcessBlock of a block built from symbolic transactions
 //	     tx: reg:<i>[:<stakeUntil>]  upd:<i>:<n>[:<stakeUntil>]  stake:<addr>:<amount>:<nonce>  vote1:<v>:<value>:<i>=<a>,…  rtp:<workingHeight>  rtd:<interval>:<revertHeight>  dvote:<k>:<d|v2>:<i>=<a>,…:<nonce>  cancel:<i>  act:<i>  vote:<v>:<i>,<j>…  unvote:<v>  illegal:<i>:<nonce>  inactive:<i>:<nonce>
@@ -18,6 +18,7 @@ import (
 	"crypto/elliptic"
 	"crypto/sha256"
 	"fmt"
+	"math"
 	"math/big"
 	"os"
 	"reflect"
@@ -91,6 +92,8 @@ type env struct {
 	arbs    []*state2.ArbiterInfo
 	voteTxs map[int]interfaces.Transaction
 	tip     uint32
+	byHeight map[uint32]*types.Block // the chain's blocks, for Arbiters' getBlockByHeight
+	arb2    bool // Arbiters mode with 2 CRC + 2 normal arbiters and CR node claiming from VoteStartHeight on
 	arbMode bool              // drive dpos/state.Arbiters and roll back through CheckPoint.OnRollbackTo
 	arb     *state2.Arbiters
 	ckp     *state2.CheckPoint
@@ -108,15 +111,40 @@ var e *env
 // the node does, without a chain store: the chain lookups it registers are answered from the harness.
 func newArbiters(en *env) *state2.State {
 	params := config.DefaultParams
+	if en.arb2 {
+		// a small arbiter set, and CR members may claim DPoS nodes from the start: every update of the next
+		// arbiters then asks for a NextTurnDPOSInfo transaction (NeedNextTurnDPOSInfo)
+		dc := params.DPoSConfiguration
+		dc.CRCArbiters = []string{"03e435ccd6073813917c2d841a0815d21301ec3286bc1412bb5b099178c68a10b6",
+			"038a1829b4b2bee784a99bebabbfecfec53f33dadeeeff21b460f8b4fc7c2ca771"}
+		dc.NormalArbitratorsCount = 2
+		params.DPoSConfiguration = dc
+		cc := params.CRConfiguration
+		cc.CRClaimDPOSNodeStartHeight = params.VoteStartHeight
+		params.CRConfiguration = cc
+	}
 	ckpm := checkpoint.NewManager(&params)
 	committee := crstate.NewCommittee(&params, ckpm)
+	if en.arb2 {
+		committee = nil // no CR committee at these heights
+	}
 	arb, err := state2.NewArbitrators(&params, committee, func(common.Uint168) (common.Fixed64, error) { return 0, nil },
 		nil, nil, nil, nil, nil, nil, ckpm)
 	if err != nil {
 		panic("harness: NewArbitrators: " + err.Error())
 	}
-	arb.RegisterFunction(func() uint32 { return en.tip }, func() *common.Uint256 { return &common.Uint256{} },
-		func(uint32) (*types.Block, error) { return nil, fmt.Errorf("no block") },
+	arb.RegisterFunction(func() uint32 {
+		if en.arb2 {
+			return math.MaxUint32 // the chain tip is far ahead: the arbiters create / broadcast no transactions
+		}
+		return en.tip
+	}, func() *common.Uint256 { return &common.Uint256{} },
+		func(h uint32) (*types.Block, error) {
+			if b, ok := en.byHeight[h]; ok && en.arb2 {
+				return b, nil // (plain `arb` mode keeps answering "no block": a forced change there needs real block rewards)
+			}
+			return nil, fmt.Errorf("no block %d", h)
+		},
 		func(tx interfaces.Transaction) (map[*common2.Input]common2.Output, error) {
 			res := map[*common2.Input]common2.Output{}
 			for _, in := range tx.Inputs() {
@@ -128,6 +156,10 @@ func newArbiters(en *env) *state2.State {
 			}
 			return res, nil
 		})
+	if en.arb2 {
+		arb.State = state2.NewState(&params, arb.GetArbitrators, nil, nil, func() bool { return false }, nil, nil, nil, nil, nil, nil, nil)
+		arb.State.GetTxReference = arb.GetTxReference
+	}
 	en.arb = arb
 	en.ckp = state2.NewCheckpoint(arb)
 	return arb.State
@@ -263,6 +295,17 @@ func buildTx(en *env, d string) interfaces.Transaction {
 			&payload.Voting{Contents: []payload.VotesContent{{VoteType: vt, VotesInfo: vi}}},
 			[]*common2.Attribute{{Usage: common2.Nonce, Data: []byte{byte(n), byte(n >> 8), 2}}}, []*common2.Input{}, []*common2.Output{}, 0,
 			[]*program.Program{{Code: code}})
+	case "nextturn": // the NextTurnDPOSInfo transaction a block has to carry after the next arbiters were updated
+		return functions.CreateTransaction(common2.TxVersion09, common2.NextTurnDPOSInfo, 0,
+			&payload.NextTurnDPOSInfo{WorkingHeight: 0, CRPublicKeys: [][]byte{}, DPOSPublicKeys: [][]byte{}},
+			[]*common2.Attribute{}, []*common2.Input{}, []*common2.Output{}, 0, []*program.Program{})
+	case "illegalx": // illegalx:<n>  illegal-block evidence against a key that is no producer: only forces an arbiter change
+		n, _ := strconv.Atoi(p[1])
+		stranger := make([]byte, 33)
+		stranger[0], stranger[32] = 0x02, 0x99
+		return mkTx(common2.IllegalBlockEvidence, common2.TxVersion09, &payload.DPOSIllegalBlocks{BlockHeight: uint32(n),
+			Evidence:        payload.BlockEvidence{Header: []byte{byte(n), 7}, Signers: [][]byte{stranger}},
+			CompareEvidence: payload.BlockEvidence{Header: []byte{byte(n), 8}, Signers: [][]byte{stranger}}}, nil, nil)
 	case "rtp": // rtp:<workingHeight>   RevertToPOW
 		wh, _ := strconv.Atoi(p[1])
 		return functions.CreateTransaction(common2.TxVersion09, common2.RevertToPOW, payload.RevertToPOWVersion,
@@ -309,6 +352,10 @@ func process(en *env, st *state2.State, b blockDesc) {
 	}
 	blk := &types.Block{Header: common2.Header{Height: b.height, Timestamp: 1600000000 + b.height*120}, Transactions: txs}
 	en.tip = b.height
+	if en.byHeight == nil {
+		en.byHeight = map[uint32]*types.Block{}
+	}
+	en.byHeight[b.height] = blk
 	if en.arbMode {
 		var confirm *payload.Confirm
 		if sponsor != nil {
@@ -545,7 +592,7 @@ func exec1(t []string) string {
 			v, _ := strconv.Atoi(t[1])
 			base = uint32(v)
 		}
-		e = &env{base: base, voteTxs: map[int]interfaces.Transaction{}, arbMode: len(t) > 2 && t[2] == "arb"}
+		e = &env{base: base, voteTxs: map[int]interfaces.Transaction{}, arbMode: len(t) > 2 && (t[2] == "arb" || t[2] == "arb2"), arb2: len(t) > 2 && t[2] == "arb2"}
 		for i := 0; i < 5; i++ {
 			e.arbs = append(e.arbs, &state2.ArbiterInfo{NodePublicKey: nodeKeys[i], IsNormal: true})
 		}
@@ -575,6 +622,9 @@ func exec1(t []string) string {
 			}
 		}
 		process(e, e.cur, b)
+		if os.Getenv("C21_DBG2") != "" {
+			fmt.Fprintln(os.Stderr, "DBG2", h, "NeedNextTurnDPOSInfo", e.cur.NeedNextTurnDPOSInfo, "active", len(e.cur.ActivityProducers), "pending", len(e.cur.PendingProducers))
+		}
 		if os.Getenv("C21_DBG") != "" {
 			if pr := e.cur.GetProducer(ownerKeys[4]); pr != nil {
 				fmt.Fprintln(os.Stderr, "DBG", h, "p4 state", pr.State())
@@ -632,7 +682,7 @@ func exec1(t []string) string {
 			return status(e.cur) + " err"
 		}
 		// one vote-transaction table per chain (looked up by hash), shared by every instance
-		fresh := &env{base: e.base, voteTxs: e.voteTxs, arbs: e.arbs, arbMode: e.arbMode}
+		fresh := &env{base: e.base, voteTxs: e.voteTxs, arbs: e.arbs, arbMode: e.arbMode, arb2: e.arb2}
 		fresh.cur = newState(fresh)
 		var keep []blockDesc
 		for _, b := range e.blocks {
